@@ -89,6 +89,18 @@ theorem waiters_are_tasks_of_the_address {n : Nat} {s : St} (h : Reach n s) (a :
     ∀ j ∈ s.waiters a, ∃ d, s.conns[j]? = some d ∧ d.addr = some a :=
   (Reach.sem h).wl a
 
+/-- the slot is taken for the address that is DIALLED: the key of `max_conns[...]` is fixed when the server_connect
+    hook returns — the address an addon wrote there if it wrote one, otherwise the address the layer asked for —
+    and all the per-address theorems above count by this address -/
+theorem slot_keyed_on_dialled_address {c c' : Conn} {ok : Bool} {cmds : List Cmd}
+    (hpc : c.pc = .inSC) (h0 : c.addr = none) (h : stepS c (.hookret .ok false) ok = some (c', cmds)) :
+    c'.addr = (match c.want with | some a => some a | none => c.req) ∧ c'.pc = .preSem := by
+  simp only [stepS, hpc, Option.some.injEq, Prod.mk.injEq] at h
+  obtain ⟨rfl, _⟩ := h
+  refine ⟨?_, rfl⟩
+  simp only [h0, Option.isNone_none, if_true]
+  cases c.want <;> rfl
+
 /-- a task that is cancelled while it is still queued for a slot leaves the queue without touching the counter
     of any address (it never held a slot, so it must not release one) -/
 theorem cancelled_waiter_keeps_count {s s' : St} {i : Nat} {c : Conn}
@@ -218,6 +230,19 @@ example : ∃ s, run (init 1) (queued3 ++ [.act (.S 0) (.connret .err), .act (.S
       .act (.S 1) .creq, .act (.S 1) .semcancel]) = some s ∧
     s.semv 0 = 0 ∧ s.waiters 0 = [2] ∧ (s.conns.map (·.pc)) = [.finishing, .preSE .canc, .semWoken] :=
   ⟨_, rfl, by decide⟩
+
+/-- two connections the layer asked for at DIFFERENT addresses, both redirected to address 0 by the server_connect hook,
+    one slot: the second one cannot take a slot at once (it would, if the semaphore were keyed on the requested
+    address) — it has to queue -/
+def redirected : List Label :=
+  [.act .H (.hook .cc), .act .H (.hookret .ok false),
+   .act .H (.ev .start [.opn 0 (some 1), .opn 1 (some 2)]),
+   .act (.S 0) .start, .act (.S 0) (.hook .sc), .act (.S 0) (.dial 0), .act (.S 0) (.hookret .ok false), .act (.S 0) .semacq,
+   .act (.S 1) .start, .act (.S 1) (.hook .sc), .act (.S 1) (.dial 0), .act (.S 1) (.hookret .ok false)]
+
+example : (run (init 1) (redirected ++ [.act (.S 1) .semacq])).isNone = true := by decide
+example : ∃ s, run (init 1) (redirected ++ [.act (.S 1) .semwait]) = some s ∧ s.waiters 0 = [1] ∧ s.semv 0 = 0 ∧
+    s.semv 1 = 1 ∧ s.semv 2 = 1 := ⟨_, rfl, by decide⟩
 
 /-- a queued task cannot take a slot it has not been handed, and the fast path is closed while somebody queues -/
 example : (run (init 1) (queued3 ++ [.act (.S 1) .semacq])).isNone = true := by decide
